@@ -396,7 +396,9 @@ func ruleC07Shapes(p *Program, r *Run) {
 		}
 		sort.Strings(names)
 		prodOf[k] = strings.Join(names, ",")
-		if len(names) == 1 {
+		if len(names) == 1 && strings.HasPrefix(names[0], "type:") {
+			got[k] = strings.TrimPrefix(names[0], "type:*parser.")
+		} else if len(names) == 1 {
 			if fd := p.FuncDecl(pkg, "parser."+names[0]); fd != nil {
 				got[k] = strings.TrimPrefix(TypeStr(FuncObj(pkg, fd).Type().(*types.Signature).Results().At(0).Type()), "*parser.")
 			}
@@ -802,8 +804,21 @@ func (c *synClient) production(fn *types.Func) bool {
 
 // Inline: everything small on the way from the keyword to the append, except the productions themselves.
 func (c *synClient) Inline(e *Engine, call *ast.CallExpr, callee *types.Func, decl *ast.FuncDecl) bool {
-	return !c.production(callee) && smallBody(decl) && callee.Pkg() != nil && callee.Pkg().Path() == PathParser &&
-		fnName(callee) != "joinErrors" && fnName(callee) != "next" && fnName(callee) != "prev" && fnName(callee) != "split" && fnName(callee) != "endSplit"
+	if c.production(callee) || !smallBody(decl) || callee.Pkg() == nil || callee.Pkg().Path() != PathParser {
+		return false
+	}
+	// dispatchers and pass-through helpers: something that hands on a tabular operator as such
+	sig := callee.Type().(*types.Signature)
+	for i := 0; i < sig.Results().Len(); i++ {
+		t := sig.Results().At(i).Type()
+		if TypeStr(t) == "parser.TabularOperator" {
+			return true
+		}
+		if tp, ok := t.(*types.TypeParam); ok && types.Implements(tp, c.p.Iface(c.p.Parser, "TabularOperator")) {
+			return true
+		}
+	}
+	return false
 }
 
 func (c *synClient) PostCall(e *Engine, st *State, call *ast.CallExpr, callee *types.Func) *State {
@@ -837,7 +852,15 @@ func (c *synClient) PreAssign(e *Engine, st *State, lhs, rhs []ast.Expr, _ ast.S
 		return nil
 	}
 	prod := "?" + exprStr(call.Args[1])
-	if f := e.FactOf(st, call.Args[1]); f != nil {
+	f := e.FactOf(st, call.Args[1])
+	if f == nil {
+		f = e.valueOf(st, call.Args[1])
+	}
+	if f != nil {
+		// a node built in place (the production was inlined by hand): its type stands for the production
+		if len(f.TyIn) == 1 {
+			prod = "type:" + f.TyIn[0]
+		}
 		for _, t := range f.Tags {
 			if strings.HasPrefix(t, "prod:") {
 				prod = strings.TrimPrefix(t, "prod:")
